@@ -29,9 +29,23 @@ ASSUMPTIONS = [
 ]
 
 
+_PD_CALC = ('get_nrecords', 'calc_tdda_type', 'calc_null_count', 'calc_non_null_count', 'calc_nunique', 'calc_min',
+            'calc_max', 'calc_min_length', 'calc_max_length')
+
+
 def fill_trust(ctx):
     ctx.trusted.extend(TRUSTED)
     ctx.assumptions.extend(ASSUMPTIONS)
+    # the abstract interface stays an assumption of the shared layer; say where an implementation is itself verified
+    for name, how in list(ctx.assumed_callees.items()):
+        short = name.split('.')[-1]
+        if name.startswith('BaseConstraintCalculator.') and short in _PD_CALC:
+            ctx.assumed_callees[name] = how + (' (interface contract; the pandas implementation of this method is verified '
+                                               'against the same clauses in contracts.pdcalc, the database one is verified to '
+                                               'hand on the handler query of the same name in contracts.dbcalc)')
+        elif name.startswith('BaseConstraintDetector.detect_'):
+            ctx.assumed_callees[name] = how + (' (interface hook; the pandas detector method of this name is verified in '
+                                               'contracts.pddetect)')
 
 
 def bounded_constraints(ctx, props):
